@@ -35,7 +35,7 @@ def enum_class(full):
 
 def make_member(full, value):
     """The member of enum `full` with the given (possibly symbolic) value."""
-    o = PObj(enum_class(full), tag=f"{full.split(':')[1]}<{value}>")
+    o = PObj(enum_class(full), tag=f"{full.split(':')[1]}<{value if isinstance(value, int) else 'sym'}>")
     o.fields["value"] = value
     o.ident = (full, value)
     return o
